@@ -39,86 +39,197 @@ def run(chk, repo: Repo):
     bp = repo.cls(BP)
     mp = repo.method(bp, "MAP")[1]
     sc = repo.method(bp, "_sampleMapCholesky")[1]
-    # R1  (the covariance variables are found by their provenance, not by name)
-    from ..pattern import statements, unify
-    for fn in (mp, sc):
-        g = CFG(fn)
-        S = statements(fn, nested=True)
-        for role, src, dim in (("noise", "self.likelihood.distribution.cov", "self.model.range_dim"), ("prior", "self.prior.cov", "self.model.domain_dim")):
-            b0, _ = unify([f"$C={src}"], S)
-            if b0 is None:
-                raise AnchorError(f"{bp.qual}.{fn.name}: the {role} covariance is not read from {src}")
-            var = b0["C"]
-            SN = [(n, _norm(n.ast)) for n in g.nodes if isinstance(n.ast, ast.Assign) and n.kind == "stmt" and path_of(n.ast.targets[0]) == var]
-            scalar = [n for n, t in SN if t == f"{var}={var}.ravel()[0]*np.eye({dim})"]
-            vector = [n for n, t in SN if t in (f"{var}=np.diag({var})",)]
-            problems = []
-            if len(scalar) != 1 or (f"np.size({var})==1", "T") not in {(_norm(t.ast), lab) for t, lab in g.guards_of(scalar[0])}:
-                problems.append(f"a scalar {role} covariance (stored as a (1,1) array) is not expanded to c*I of size {dim}")
-            if len(vector) != 1 or not any(_norm(t.ast) in (f"np.ndim({var})==1", f"{var}.ndim==1", f"len({var}.shape)==1") and lab == "T" for t, lab in g.guards_of(vector[0])):
-                problems.append(f"a vector of {role} variances (stored 1-D) is not placed on a diagonal: it would be broadcast-added to every row / inverted element-wise")
-            chk.add("C15-R1", f"{bp.qual}.{fn.name}/{role}-covariance", not problems, site(repo, fn), f"{role} covariance: scalar -> c*I, vector -> diag, matrix as stored", "; ".join(problems), fn)
-    # R2
-    S = statements(mp, nested=True)
-    pats = ["$b=self.data", "$A=self.model.get_matrix()", "$Ce=self.likelihood.distribution.cov", "$m=self.prior.mean", "$Cx=self.prior.cov",
-            "$rhs=$b-$A@$m", "$sys=$A@$Cx@$A.T+$Ce", "$xm=$m+$Cx@($A.T@np.linalg.solve($sys,$rhs))"]
-    msgs = ["data", "matrix of the model", "noise covariance", "prior mean", "prior covariance", "residual of the prior mean b - A m",
-            "data-space system matrix A Cx A' + Ce", "x = m + Cx A' (A Cx A' + Ce)^-1 (b - A m)"]
+    # R1, R2, R4: the value computed on the direct route as a closed expression of the problem's components, for every storage form of the two
+    # covariances (sa/pathtable.py follows the path selected by each valuation of the tests and substitutes the locals)
+    from .common import canon_keep, canon_fn, stmts
+    from ..pathtable import walk, walk_stmts
+    from ..pattern import norm as pn, unify, statements
+    from ..canon import _SymOrder
+    E, X = "self.likelihood.distribution.cov", "self.prior.cov"
+    A, b_, m_ = "self.model.get_matrix()", "self.data", "self.prior.mean"
+    DIRECT = "self._check_posterior(self,Gaussian,Gaussian,LinearModel,max_dim=config.MAX_DIM_INV)"
+
+    def cov(raw, form, dim):
+        return {"scalar": f"{raw}.ravel()[0]*np.eye({dim})", "vector": f"np.diag({raw})", "matrix": raw}[form]
+
+    def valuation(fe, fx, direct=True):
+        v = {"disp": False, DIRECT: direct}
+        for raw, form in ((E, fe), (X, fx)):
+            v[f"np.size({raw})==1"] = form == "scalar"
+            for vec in (f"np.ndim({raw})==1", f"{raw}.ndim==1", f"len({raw}.shape)==1", f"len(np.shape({raw}))==1"):
+                v[vec] = form == "vector"
+        return {pn(_SymOrder().visit(ast.parse(k, mode="eval").body)): val for k, val in v.items()}
+
+    def canon_txt(t):
+        return pn(_SymOrder().visit(ast.parse(t, mode="eval").body))
+    FORMS = ("scalar", "vector", "matrix")
+    KEEP = {"_check_posterior", "_solve_max_point", "MAP", "_sampleMapCholesky"}
+    mpv = canon_keep(repo, bp, mp, KEEP)
+    scv = canon_keep(repo, bp, sc, KEEP)
+    # ---- MAP
+    results = {}
+    for fe in FORMS:
+        for fx in FORMS:
+            results[(fe, fx)] = walk(mpv, valuation(fe, fx), pn)
+
+    def want_map(fe, fx):
+        Ce, Cx = cov(E, fe, "self.model.range_dim"), cov(X, fx, "self.model.domain_dim")
+        return canon_txt(f"cuqi.array.CUQIarray({m_}+({Cx})@({A}.T@np.linalg.solve({A}@({Cx})@{A}.T+({Ce}),{b_}-{A}@{m_})),geometry=self.posterior.geometry)")
+    undec = [r for r in results.values() if r[0] == "unknown"]
+    for role, idx, raw, dim in (("noise", 0, E, "self.model.range_dim"), ("prior", 1, X, "self.model.domain_dim")):
+        problems = []
+        for form in FORMS:
+            key = (form, "matrix") if idx == 0 else ("matrix", form)
+            kind, res = results[key]
+            if kind == "unknown":
+                continue
+            got = canon_txt(unparse(res)) if kind == "return" else kind
+            if got != want_map(*key):
+                have = canon_txt(cov(raw, form, dim))
+                if form == "scalar":
+                    problems.append(f"a scalar {role} covariance (stored as a (1,1) array) is not expanded to c*I of size {dim}")
+                elif form == "vector":
+                    problems.append(f"a vector of {role} variances (stored 1-D) is not placed on a diagonal: it would be broadcast-added to every row / inverted element-wise")
+                else:
+                    problems.append(f"a full {role} covariance matrix is not used as stored")
+        chk.decide("C15-R1", f"{bp.qual}.MAP/{role}-covariance", not problems and not undec, not undec, site(repo, mp),
+                   f"{role} covariance: scalar -> c*I, vector -> diag, matrix as stored", "; ".join(problems) or str(undec[:1]), mp)
     problems = []
-    b, fail = unify(pats, S)
-    if b is None:
-        problems.append(f"{msgs[fail]} (`{pats[fail]}` has no consistent match)")
-    t = _norm(mp)
-    for pat, msg in (("ifself._check_posterior(self,Gaussian,Gaussian,LinearModel,max_dim=config.MAX_DIM_INV):", "route selected for Gaussian prior/likelihood, linear model, bounded size"),
-                     ("self._solve_max_point(self.posterior,disp=disp,x0=x0)", "otherwise numerical optimisation of the posterior")):
-        if pat not in t:
-            problems.append(f"{msg} (`{pat}` not found)")
-    if b is not None and f"{b['xm']}=cuqi.array.CUQIarray({b['xm']},geometry=self.posterior.geometry)" not in t:
-        problems.append("estimate is not wrapped with the posterior's geometry")
-    chk.add("C15-R2", f"{bp.qual}.MAP", not problems, site(repo, mp), "closed form of the linear-Gaussian posterior mean", "; ".join(problems), mp)
-    cp = repo.method(bp, "_check_posterior")[1]
-    t = _norm(cp)
-    ok = "P=isinstance(posterior.prior,prior_type)" in t and "L=isinstance(posterior.likelihood.distribution,likelihood_type)" in t and "M=isinstance(posterior.model,model_type)" in t \
-        and "returnLandPandMandDandG" in t
-    chk.add("C15-R2", f"{bp.qual}._check_posterior", ok, site(repo, cp), "all requested type/size/gradient conditions must hold", "route selection no longer requires all conditions", cp)
-    # R3
+    kind, res = results[("matrix", "matrix")]
+    if kind == "return" and canon_txt(unparse(res)) != want_map("matrix", "matrix"):
+        problems.append(f"the direct estimate is `{unparse(res)[:200]}`, not x = m + Cx A' (A Cx A' + Ce)^-1 (b - A m) wrapped with the posterior's geometry")
+    kind2, res2 = walk(mpv, valuation("matrix", "matrix", direct=False), pn)
+    want_num = canon_txt("cuqi.array.CUQIarray(self._solve_max_point(self.posterior,disp=disp,x0=x0)[0],geometry=self.posterior.geometry)")
+    if kind2 == "return" and canon_txt(unparse(res2)) != want_num:
+        problems.append(f"otherwise the estimate is `{unparse(res2)[:160]}`, not the numerical maximiser of the posterior wrapped with its geometry")
+    rec = kind == "return" and kind2 == "return"
+    chk.decide("C15-R2", f"{bp.qual}.MAP", rec and not problems, rec, site(repo, mp), "closed form of the linear-Gaussian posterior mean; numerical optimisation otherwise",
+               "; ".join(problems) or f"route not decidable ({res if kind != 'return' else res2})", mp)
+    # ---- _check_posterior: conjunction of exactly the requested conditions
+    cp_src = repo.method(bp, "_check_posterior")[1]
+    cpv = canon_fn(repo, bp, cp_src, 1)
+    conds = {"prior_type": "isinstance(posterior.prior,prior_type)", "likelihood_type": "isinstance(posterior.likelihood.distribution,likelihood_type)",
+             "model_type": "isinstance(posterior.model,model_type)", "max_dim": "posterior.model.domain_dim<=max_dim and posterior.model.range_dim<=max_dim"}
+    problems, decided = [], True
+    import itertools
+    for bits in itertools.product((True, False), repeat=4):
+        val = {pn(f"{k} is None"): v for k, v in zip(conds, bits)}
+        val.update({pn(f"{k} is not None"): (not v) for k, v in zip(conds, bits)})
+        val["must_have_gradient"] = False
+        kind, res = walk(cpv, val, pn)
+        if kind != "return":
+            decided = False
+            break
+        got = _conjuncts(_simplify(res, val, pn), pn)
+        want = set()
+        for (k, c), isnone in zip(conds.items(), bits):
+            if not isnone:
+                want |= _conjuncts(ast.parse(c, mode="eval").body, pn)
+        if got != want:
+            problems.append(f"with {[k for k, n_ in zip(conds, bits) if not n_]} requested the route requires {sorted(got)}, expected {sorted(want)}")
+    chk.decide("C15-R2", f"{bp.qual}._check_posterior", decided and not problems, decided, site(repo, cp_src), "all requested type/size/gradient conditions must hold",
+               "route selection no longer requires all conditions: " + "; ".join(problems[:2]), cp_src)
+    # ---- R3: optimiser on (-logd, -gradient) of the same density
     sm = repo.method(bp, "_solve_max_point")[1]
     d = func_params(sm)[1]
-    t = _norm(sm)
+    from ..canon import _single_expr
     problems = []
-    for pat, msg in ((f"deffunc(x):return-{d}.logd(x)", "objective is -logd of the density"),
-                     (f"defgradfunc(x):return-{d}.gradient(x)", "gradient is -gradient of the same density"),
-                     ("except(NotImplementedError,AttributeError):gradfunc=None", "no gradient -> approximate gradients"),
-                     ("solver=cuqi.solver.L_BFGS_B(func,x0,gradfunc=gradfunc)", "L-BFGS-B on (func, gradfunc)"),
-                     ("solver=cuqi.solver.minimize(func,x0,gradfunc=gradfunc)", "minimize on (func, gradfunc)"),
-                     ("x_MAP,solver_info=solver.solve()", "solver's point"), ("return(x_MAP,solver_info)", "returned unchanged")):
-        if pat not in t:
-            problems.append(f"{msg} (`{pat}` not found)")
+    objs, grads = [], []
+    for n in ast.walk(sm):
+        if isinstance(n, ast.FunctionDef) and n is not sm:
+            e = _single_expr(n)
+            if e is not None and len(n.args.args) == 1:
+                t = pn(e)
+                a0 = n.args.args[0].arg
+                if t == pn(f"-{d}.logd({a0})"):
+                    objs.append(n)
+                elif t == pn(f"-{d}.gradient({a0})"):
+                    grads.append(n)
+    if len(objs) != 1:
+        problems.append(f"objective is not a function returning -{d}.logd(x)")
+    if len(grads) != 1:
+        problems.append(f"gradient is not a function returning -{d}.gradient(x) of the same density")
     g = CFG(sm)
-    gd = [n for n in g.nodes if isinstance(n.ast, ast.FunctionDef) and n.ast.name == "gradfunc"]
-    probe = [n for n in g.nodes if n.ast is not None and n.kind == "stmt" and _norm(n.ast) == f"{d}.gradient(x0)"]
-    if len(gd) != 1 or len(probe) != 1 or not g.dominates(probe[0], gd[0]):
-        problems.append("the exact gradient is used without first probing that the density provides one")
+    if objs and grads:
+        fo, fg = objs[0].name, grads[0].name
+        ctor = [c for c in ast.walk(sm) if isinstance(c, ast.Call) and c.args and path_of(c.args[0]) == fo]
+        if not ctor:
+            problems.append("the solver is not constructed on the objective")
+        for c in ctor:
+            kw = {k.arg: path_of(k.value) for k in c.keywords}
+            if kw.get("gradfunc") != fg or (len(c.args) < 2 or path_of(c.args[1]) != "x0"):
+                problems.append(f"solver `{unparse(c)[:70]}` does not receive (objective, x0, gradfunc=<its gradient>)")
+        # the name of the gradient is bound either to that function or to None (no analytic gradient): approximate gradients, never another function
+        others = [n_ for n_ in ast.walk(sm) if isinstance(n_, ast.Assign) and path_of(n_.targets[0]) == fg and not (isinstance(n_.value, ast.Constant) and n_.value.value is None)]
+        if others:
+            problems.append(f"`{fg}` is also bound to `{unparse(others[0].value)[:40]}`")
+        none_bind = [n_ for n_ in ast.walk(sm) if isinstance(n_, ast.Assign) and path_of(n_.targets[0]) == fg and isinstance(n_.value, ast.Constant) and n_.value.value is None]
+        if not none_bind or not any(isinstance(p_, ast.ExceptHandler) for nb in none_bind for p_ in _parents(nb)):
+            problems.append("no gradient -> approximate gradients: the gradient is not set to None in the handler of the probing call")
+        gd = [n for n in g.nodes if n.ast is grads[0]]
+        probe = [n for n in g.nodes if n.ast is not None and n.kind == "stmt" and pn(n.ast) == pn(f"{d}.gradient(x0)")]
+        if len(gd) != 1 or len(probe) != 1 or not g.dominates(probe[0], gd[0]):
+            problems.append("the exact gradient is used without first probing that the density provides one")
+        S = statements(sm, nested=True)
+        bsol, _ = unify(["$x,$info=$solver.solve()", "return ($x,$info)"], S)
+        if bsol is None:
+            problems.append("the solver's point is not returned unchanged")
     chk.add("C15-R3", f"{bp.qual}._solve_max_point", not problems, site(repo, sm), "minimise -logd with -gradient (both or neither)", "; ".join(problems), sm)
     ml = repo.method(bp, "ML")[1]
-    t = _norm(ml)
-    ok = "x_ML,solver_info=self._solve_max_point(self.likelihood,disp=disp,x0=x0)" in t and "x_ML=cuqi.array.CUQIarray(x_ML,geometry=self.likelihood.geometry)" in t and "returnx_ML" in t
-    chk.add("C15-R3", f"{bp.qual}.ML", ok, site(repo, ml), "maximiser of the likelihood wrapped with its geometry", "ML does not optimise the likelihood / wrap with its geometry", ml)
-    t = _norm(mp)
-    ok = "x_MAP.info=solver_info" in t and "returnx_MAP" in t
-    chk.add("C15-R3", f"{bp.qual}.MAP/return", ok, site(repo, mp), "returns the estimate with solver info", "MAP does not return the wrapped estimate", mp)
-    # R4
-    S = statements(sc, nested=True)
-    pats = ["$A=self.model.get_matrix()", "$Ce=self.likelihood.distribution.cov", "$Cx=self.prior.cov", "$xmap=self.MAP(disp=False)",
-            "$C=np.linalg.inv($A.T@(np.linalg.inv($Ce)@$A)+np.linalg.inv($Cx))", "$L=np.linalg.cholesky($C)", "$n=self.prior.dim",
-            "$xs[:,$s]=$xmap.parameters+$L@np.random.randn($n)", "return cuqi.samples.Samples($xs,self.model.domain_geometry)"]
-    msgs = ["same matrix as MAP", "same noise covariance as MAP", "same prior covariance as MAP", "centre is the MAP",
-            "posterior covariance (A' Ce^-1 A + Cx^-1)^-1", "Cholesky factor of the covariance", "dimension", "draw = MAP parameters + L @ N(0, I)", "samples with the domain geometry"]
+    kind, res = walk(canon_keep(repo, bp, ml, KEEP), {"disp": False}, pn)
+    ok = kind == "return" and canon_txt(unparse(res)) == canon_txt("cuqi.array.CUQIarray(self._solve_max_point(self.likelihood,disp=disp,x0=x0)[0],geometry=self.likelihood.geometry)")
+    chk.decide("C15-R3", f"{bp.qual}.ML", ok, kind == "return", site(repo, ml), "maximiser of the likelihood wrapped with its geometry", "ML does not optimise the likelihood / wrap with its geometry", ml)
+    S = stmts(repo, bp, mp)
+    binfo, _ = unify(["$x.info=$info", "return $x"], S)
+    chk.add("C15-R3", f"{bp.qual}.MAP/return", binfo is not None, site(repo, mp), "returns the estimate with solver info", "MAP does not return the wrapped estimate", mp)
+    # ---- R4 (and R1 for the sampler): the state at the sampling loop
+    for role, idx, raw, dim in (("noise", 0, E, "self.model.range_dim"), ("prior", 1, X, "self.model.domain_dim")):
+        problems, undec = [], []
+        for form in FORMS:
+            key = (form, "matrix") if idx == 0 else ("matrix", form)
+            kind, res = walk(scv, valuation(*key), pn)
+            if kind != "loop":
+                undec.append((kind, res))
+                continue
+            env, node = res
+            Ce, Cx = cov(E, key[0], "self.model.range_dim"), cov(X, key[1], "self.model.domain_dim")
+            wantC = canon_txt(f"np.linalg.inv({A}.T@(np.linalg.inv({Ce})@{A})+np.linalg.inv({Cx}))")
+            vals = {canon_txt(unparse(v_)) for v_ in env.values() if isinstance(v_, ast.AST) and not isinstance(v_, ast.FunctionDef)}
+            if not any(wantC == v_ or f"np.linalg.cholesky({wantC})" == v_ for v_ in vals):
+                if form == "scalar":
+                    problems.append(f"a scalar {role} covariance (stored as a (1,1) array) is not expanded to c*I of size {dim}")
+                elif form == "vector":
+                    problems.append(f"a vector of {role} variances (stored 1-D) is not placed on a diagonal: it would be broadcast-added to every row / inverted element-wise")
+                else:
+                    problems.append(f"a full {role} covariance matrix is not used as stored")
+        chk.decide("C15-R1", f"{bp.qual}._sampleMapCholesky/{role}-covariance", not problems and not undec, not undec, site(repo, sc),
+                   f"{role} covariance: scalar -> c*I, vector -> diag, matrix as stored", "; ".join(problems) or str(undec[:1]), sc)
     problems = []
-    b, fail = unify(pats, S)
-    if b is None:
-        problems.append(f"{msgs[fail]} (`{pats[fail]}` has no consistent match)")
-    chk.add("C15-R4", f"{bp.qual}._sampleMapCholesky", not problems, site(repo, sc), "exact Gaussian posterior draws", "; ".join(problems), sc)
+    kind, res = walk(scv, valuation("matrix", "matrix"), pn)
+    if kind != "loop":
+        chk.unknown("C15-R4", f"{bp.qual}._sampleMapCholesky", site(repo, sc), f"sampling loop not reached: {kind} {res}", sc)
+    else:
+        env, node = res
+        lp = node.ast
+        LB = statements(lp, nested=True)
+        bb, _ = unify(["$xs[:,$s]=$xmap.parameters+$L@np.random.randn($n)"], LB)
+        if bb is None:
+            problems.append("draw = MAP parameters + L @ N(0, I) (`$xs[:,$s]=$xmap.parameters+$L@np.random.randn($n)` has no match in the loop)")
+        else:
+            def ev(name):
+                v_ = env.get(name)
+                return canon_txt(unparse(v_)) if v_ is not None else name
+            wantC = canon_txt(f"np.linalg.inv({A}.T@(np.linalg.inv({E})@{A})+np.linalg.inv({X}))")
+            if ev(bb["L"]) != f"np.linalg.cholesky({wantC})":
+                problems.append(f"the factor applied to the standard-normal draw is `{ev(bb['L'])[:140]}`, not the Cholesky factor of (A' Ce^-1 A + Cx^-1)^-1")
+            if ev(bb["xmap"]) != canon_txt("self.MAP(disp=False)"):
+                problems.append("the draws are not centred at the MAP estimate")
+            if ev(bb["n"]) != "self.prior.dim":
+                problems.append("the standard-normal draw does not have the prior's dimension")
+            rets = [r for r in ast.walk(scv) if isinstance(r, ast.Return)]
+            if len(rets) != 1 or pn(rets[0].value) != pn(f"cuqi.samples.Samples({bb['xs']},self.model.domain_geometry)"):
+                problems.append("samples are not returned with the domain geometry")
+        chk.add("C15-R4", f"{bp.qual}._sampleMapCholesky", not problems, site(repo, sc), "exact Gaussian posterior draws", "; ".join(problems), sc)
     # R5
     for fn in (mp, sc):
         fa = FnAlias(fn)
@@ -130,3 +241,50 @@ def run(chk, repo: Repo):
                          f"every later MAP()/sample would use the altered value", a)
         else:
             chk.ok("C15-R5", f"{bp.qual}.{fn.name}", site(repo, fn), f"{len(fa.inplace_ops())} in-place operations, none may reach stored problem data")
+
+
+def _parents(n):
+    p = getattr(n, "_parent", None)
+    while p is not None:
+        yield p
+        p = getattr(p, "_parent", None)
+
+
+def _simplify(e, val, pn):
+    """boolean expression with the atoms of `val` replaced by their truth values and True/False folded"""
+    if isinstance(e, ast.BoolOp):
+        vals = [_simplify(v, val, pn) for v in e.values]
+        out = []
+        for v in vals:
+            if isinstance(v, ast.Constant) and isinstance(v.value, bool):
+                if isinstance(e.op, ast.And) and v.value is False:
+                    return ast.Constant(value=False)
+                if isinstance(e.op, ast.Or) and v.value is True:
+                    return ast.Constant(value=True)
+                continue
+            out.append(v)
+        if not out:
+            return ast.Constant(value=isinstance(e.op, ast.And))
+        return out[0] if len(out) == 1 else ast.BoolOp(op=e.op, values=out)
+    if isinstance(e, ast.UnaryOp) and isinstance(e.op, ast.Not):
+        v = _simplify(e.operand, val, pn)
+        if isinstance(v, ast.Constant) and isinstance(v.value, bool):
+            return ast.Constant(value=not v.value)
+        return ast.UnaryOp(op=ast.Not(), operand=v)
+    if isinstance(e, ast.Call) and call_name(e) == "bool" and len(e.args) == 1:
+        return _simplify(e.args[0], val, pn)
+    t = pn(e)
+    if t in val:
+        return ast.Constant(value=val[t])
+    return e
+
+
+def _conjuncts(e, pn):
+    if isinstance(e, ast.BoolOp) and isinstance(e.op, ast.And):
+        out = set()
+        for v in e.values:
+            out |= _conjuncts(v, pn)
+        return out
+    if isinstance(e, ast.Constant) and e.value is True:
+        return set()
+    return {pn(e)}
